@@ -123,6 +123,11 @@ def curated():
     # a pushed state that gets its back-reference rule only through Include; a state that is both pushed and included
     add({"Root": [named("Open", "(a+)b", "push", "S1"), rule("[a-c]"), rule("\\s+", True)], "S1": [inc("S2"), rule("[a-c]")], "S2": [named("End", "\\1", "pop"), rule("\\s+", True)]})
     add({"Root": [inc("S1"), rule("a")], "S1": [rule("\\(", act="push", state="S1"), rule("\\)", act="pop"), rule("b")]})
+    # rule names that start with neither an upper- nor a lower-case letter (not elided); a state that is just one Include of a
+    # state which itself includes another one in the middle
+    add({"Root": [named("_Under", "a"), named("9Nine", "b"), named("lower", "c"), rule("\\s+", True)]})
+    add({"Root": [inc("S1")], "S1": [rule("a"), inc("S2"), rule("b")], "S2": [rule("c"), rule("\\(")]})
+    add({"Root": [named("_U", "a+"), named("0Zero", "b"), named("\u00c9", "c"), named("Upper", "(?s).")]})      # no rule is elided: no byte may be dropped
     # a pattern that starts with ^ and has a top-level alternation: every alternative is anchored at the current position
     add({"Root": [rule("^a|b"), rule("c"), rule("\\s+", True)]})
     add({"Root": [rule("\\Aa|c"), rule("(?m)^b|a"), rule("(?s).")]})
@@ -168,11 +173,22 @@ def curated_gen():
     # dot-all in the middle / at the end of a pattern at the end of the input
     add({"Root": [P(0, "a(?s:.)"), P(1, "b(?s:.)c"), P(2, "(?s).")]})
     add({"Root": [P(0, "(?s)a.b?"), P(1, "[^a]")]})
+    # rule names whose first character is not ASCII (elision is decided from the name's first BYTE by the runtime lexer)
+    add({"Root": [named("\u00e9sp", "a"), named("\u00c9up", "b"), named("\u6570", "c"), P(3, "(?s).")]})
     # two pushing rules into different states (two live lexers of one definition must not share their state stacks)
     add({"Root": [P(0, "a", act="push", state="S1"), P(1, "b", act="push", state="S2"), P(2, "c")],
          "S1": [P(3, "c"), P(0, "a", act="push", state="S1"), P(4, "e", act="pop")],
          "S2": [P(5, "\\("), P(1, "b", act="push", state="S2"), P(4, "e", act="pop")]})
     return G
+
+
+def nullable_gen():
+    """definitions OUTSIDE the generator's supported class (a rule can match the empty string): the generated code is not
+    required to agree with the runtime lexer on them, but it must still terminate, make progress and not panic (ids N*)"""
+    P = lambda i, pat, **kw: named("T%d" % i, pat, kw.get("act", ""), kw.get("state", ""))
+    return [{"id": "N0", "rules": {"Root": [P(0, "a+"), named("ws", "\\s+"), P(2, "b*")]}},
+            {"id": "N1", "rules": {"Root": [P(0, "a+"), named("ws", "\\s*"), P(2, "c")]}},
+            {"id": "N2", "rules": {"Root": [P(0, "a", act="push", state="S1"), P(1, "b?")], "S1": [P(2, "c*", act="pop"), P(3, "b")]}}]
 
 
 def random_map(rng, gid, supported_only=False):
